@@ -65,8 +65,9 @@ func (ex *Exec) mapGetSpec(st *State, m Term, k Term) Value {
 }
 
 func (ex *Exec) mapHasSpec(st *State, m Term, k Term) string {
+	// Go semantics: a nil map has no keys
 	mc := ex.mapCompsOf(m.T)
-	return sx("select", sx("select", ex.mapHeap(st, mc.has), m.S), k.S)
+	return sAnd(sNot(sEq(m.S, "0")), sx("select", sx("select", ex.mapHeap(st, mc.has), m.S), k.S))
 }
 
 func (ex *Exec) mapLookup(fr *Frame, st *State, x *ssa.Lookup) Value {
